@@ -48,7 +48,7 @@ def run_one(args) -> dict:
             r = subprocess.run(["git", "apply", pth], cwd=tmp, capture_output=True, text=True)
             if r.returncode != 0:
                 return {"id": mut["id"], "status": "skipped", "why": f"patch does not apply: {r.stderr.strip()[:120]}"}
-            edits = []
+            edits = mut.get("edits", [])  # further edits on top of the patch (a repaired twin of a seed)
         else:
             edits = mut["edits"] if "edits" in mut else [(mut["file"], mut["old"], mut["new"])]
         for file, old, new in edits:
